@@ -411,6 +411,37 @@ func runC05(c *Ctx) {
 				EachInstr(g, f)
 			}
 		}
+		// a parameter of a helper shared by several cases stands, in this case, for the argument of the helper's call
+		// made in this case (onResultAwaited(ah.runCtx, err, ...))
+		var inCaseVal func(v ssa.Value, pred ValPred, d int) bool
+		inCaseVal = func(v ssa.Value, pred ValPred, d int) bool {
+			return DerivesOnly(v, false, func(r ssa.Value) bool {
+				if pred(r) {
+					return true
+				}
+				pr, isP := r.(*ssa.Parameter)
+				if !isP || d > 2 || !caseFns[pr.Parent()] {
+					return false
+				}
+				var calls []ssa.Instruction
+				eachCaseInstr(func(in ssa.Instruction) {
+					if cc := CC(in); cc != nil && cc.StaticCallee() == pr.Parent() {
+						calls = append(calls, in)
+					}
+				})
+				if len(calls) != 1 {
+					return false
+				}
+				for i, q := range pr.Parent().Params {
+					if q == pr {
+						if a := ArgOfParam(calls[0], pr.Parent(), i); a != nil {
+							return inCaseVal(a, pred, d+1)
+						}
+					}
+				}
+				return false
+			})
+		}
 		isCtxErrCall := func(v ssa.Value) bool {
 			cl, _ := CallOfValue(v)
 			if cl == nil || !MatchCC(&cl.Call, sIsCtxError) {
@@ -430,7 +461,7 @@ func runC05(c *Ctx) {
 			continue
 		}
 		cl := ctxCalls[0]
-		c.Check(DerivesOnly(cl.Call.Args[0], false, IsFieldLoadPred("", ctxField)) && DerivesOnly(cl.Call.Args[1], false, recvPred),
+		c.Check(inCaseVal(cl.Call.Args[0], IsFieldLoadPred("", ctxField), 0) && inCaseVal(cl.Call.Args[1], recvPred, 0),
 			"O5.4", key+":error-judged-against-context", cl.Pos(), "IsCtxError must be given "+ctxField+" and the received error")
 		edgeNotCtx := RestrictBool(isCtxErrCall, false)
 		edgeCtx := RestrictBool(isCtxErrCall, true)
@@ -492,7 +523,7 @@ func runC05(c *Ctx) {
 		c.Check(nf.Is(0, 0), "O5.4", key+":context-error-not-forwarded", cs.State.Pos, fmt.Sprintf("onErrAwaited() calls on the context-error path = %v (want [0,0])", nf))
 		eachCaseInstr(func(in ssa.Instruction) {
 			if isOnErr(in) {
-				c.Check(ErrDerives(CC(in).Args[1], recvPred), "O5.4", key+":forwarded-error-carries-cause", in.Pos(), "the error handed to onErrAwaited must wrap the received error")
+				c.Check(ErrDerives(CC(in).Args[1], func(v ssa.Value) bool { return recvPred(v) || inCaseVal(v, recvPred, 0) }), "O5.4", key+":forwarded-error-carries-cause", in.Pos(), "the error handed to onErrAwaited must wrap the received error")
 			}
 		})
 	}
